@@ -139,6 +139,9 @@ func run(c *lib.Ctx) error {
 
 func (s *session) model() error {
 	c := s.c
+	if os.Getenv("VERIF_DEV_SKIP") == "M" { // development only (mutant trials): M does not depend on /repo
+		return nil
+	}
 	type cfg struct {
 		name             string
 		gen, ntr, direct int
